@@ -187,7 +187,11 @@ def liouville_is_CP(
     choi = liouville_to_choi(superoperator, basis)
     D, V = nla.eigh(choi)
 
-    CP = (D >= -(atol or basis._atol)).all(axis=-1)
+    if atol is None:
+        # Eigenvalues carry rounding errors relative to the largest one
+        atol = basis._atol*np.maximum(1, np.abs(D).max(axis=-1, keepdims=True))
+
+    CP = (D >= -atol).all(axis=-1)
 
     if return_eig:
         return CP, (D, V)
@@ -260,7 +264,11 @@ def liouville_is_cCP(
     choi = liouville_to_choi(superoperator, basis)
     D, V = nla.eigh(Q @ choi @ Q)
 
-    cCP = (D >= -(atol or basis._atol)).all(axis=-1)
+    if atol is None:
+        # Eigenvalues carry rounding errors relative to the largest one
+        atol = basis._atol*np.maximum(1, np.abs(D).max(axis=-1, keepdims=True))
+
+    cCP = (D >= -atol).all(axis=-1)
 
     if return_eig:
         return cCP, (D, V)
